@@ -16,5 +16,8 @@ def gen (k : Nat) : G (List String) := do
     let n ← pick [50, 200, 600]
     out := out ++ ["udp " ++ toString sockets ++ " " ++ toString workers ++ " " ++ toString q ++ " " ++
       (if blocking then "1" else "0") ++ " " ++ beh ++ " " ++ toString n, expectLine]
+  -- a drop callback that keeps its message for a moment, on one P (non-blocking, small queue, several sockets: many drops)
+  for (sk, wk, q) in [(2, 1, 1), (3, 2, 0), (4, 1, 8)] do
+    out := out ++ ["udp " ++ toString sk ++ " " ++ toString wk ++ " " ++ toString q ++ " 0 gated1 400", expectLine]
   pure out
 end Goflow.Gen.C17
